@@ -10,6 +10,11 @@ CONSTANTS
   MainReadsErrs = TRUE
   GenVariants = {1}
   SlotRelease = "onsuccess"
+  TargetRule = "trimsuffix"
+  WalkRule = "filesonly"
+  OrphanStat = "fileonly"
+  RootRule = "exempt"
+  RootTrees <- TreesRoot
   SkipRule = "coded"
   TwoRuns = FALSE
   EmitCases = FALSE
